@@ -100,12 +100,13 @@ impl BuildRecord {
             ("cdn_path", self.cdn_path.as_ref()),
         ] {
             if let Some(value) = value
-                && value.chars().any(|c| c == '|' || c.is_control())
+                && (value.chars().any(|c| c == '|' || c.is_control()) || value.trim() != value)
             {
                 return Err(DatabaseError::InvalidField {
                     field: field.to_string(),
                     build_id: self.id,
-                    reason: "contains '|' or a control character".to_string(),
+                    reason: "contains '|', a control character, or leading/trailing whitespace"
+                        .to_string(),
                 });
             }
         }
